@@ -106,6 +106,16 @@ def run(cfg, tier="quick", seed=0, replay=None):
         if not aud["ok"]:
             problems.append({"kind": "audit", "what": aud["bad"] + aud["forbidden"], "log": aud.get("log", "")})
 
+    # thorough: independent re-check of the compiled theorems with coqchk
+    chk = None
+    if proof_ok and tier == "thorough":
+        log("[%s] coqchk" % pid)
+        rc, out = core.sh(["coqchk", "-o", "-silent", "-Q", core.COQ, "V", "V.%s.Properties" % pid], timeout=3000)
+        chk = {"rc": rc, "tail": out[-1500:]}
+        if rc != 0:
+            problems.append({"kind": "coqchk", "what": "coqchk rejected the compiled development", "log": out[-4000:]})
+    ctx["coqchk"] = chk
+
     # (d)-(f) correspondence and property evaluation
     all_cases, all_stats = [], []
     res = None
@@ -167,6 +177,7 @@ def run(cfg, tier="quick", seed=0, replay=None):
             "searched_after_break": searched,
             "known_findings_seen": sorted(known_hits.keys()),
             "extra": ctx.get("extra_evidence", {}),
+            "coqchk": ctx.get("coqchk"),
         },
         "assumptions": cfg.assumptions,
         "wall_s": round(wall, 2),
